@@ -670,6 +670,8 @@ type c07F struct {
 	Order string // "" = none written
 	QO    bool
 	Fixed []string
+	// EmptyOrd: the order is written, as the quoted empty word: key@"" (order name "")
+	EmptyOrd bool
 }
 
 func c07SProj(o *hx.Out, r *hx.Rng, fs []c07F, seps []string, fam string) {
@@ -696,6 +698,11 @@ func c07SProj(o *hx.Out, r *hx.Rng, fs []c07F, seps []string, fam string) {
 				b.WriteString(c07Word(r, w, false, r.Intn(2)*r.Intn(3)))
 			}
 			b.WriteString(r.Pick([]string{")", ")", " )"}))
+		case f.EmptyOrd:
+			b.WriteString(r.Pick([]string{"@", "@", "@", " @", "@ "}))
+			ooff = b.Len()
+			order = ""
+			b.WriteString(`""`)
 		case f.Order != "":
 			b.WriteString(r.Pick([]string{"@", "@", "@", " @", "@ "}))
 			ooff = b.Len()
@@ -876,10 +883,140 @@ func c07Structured(o *hx.Out, r *hx.Rng, tier string) {
 			}
 		}
 	}
+	c07EmptyWord(o, r, mul)
+}
+
+// c07EmptyWord: the quoted EMPTY word "" in every syntactic position.
+// Projections: as sort order (key@"" - an unknown order, always rejected, at
+// the order's offset) for every kind of key, at every position of 1-3 fields,
+// with every separator; as key; as member of a fixed list (first, middle,
+// last, only, repeated - accepted: the list holds the empty string).  Filters:
+// as key (rejected), as value, as member of a value list, as unit
+// (.unit:"" - accepted, denotes the empty string), under '-', in
+// parentheses, next to other terms.
+func c07EmptyWord(o *hx.Out, r *hx.Rng, mul int) {
+	seps := []string{",", " ", ", ", "\t", " , "}
+	keys := []string{"a", ".name", ".fullname", "/size", "/gomaxprocs", "pkg", "a b", ".config", ".unit", "", "é", "-k"}
+	count := func(c string) { o.Count("class:empty-word:" + c) }
+	for rep := 0; rep < mul; rep++ {
+		// the documented witnesses first
+		c07SProj(o, r, []c07F{{Key: "a", EmptyOrd: true}}, []string{","}, "empty-order")
+		count("as-sort-order")
+		c07SProj(o, r, []c07F{{Key: ".name"}, {Key: "/size", EmptyOrd: true}, {Key: "b"}}, []string{","}, "empty-order")
+		count("as-sort-order")
+		for _, k := range keys {
+			for total := 1; total <= 3; total++ {
+				for pos := 0; pos < total; pos++ {
+					for _, sep := range seps[:2+r.Intn(len(seps)-1)] {
+						var fs []c07F
+						for j := 0; j < total; j++ {
+							if j == pos {
+								fs = append(fs, c07F{Key: k, QK: []int{0, 0, 1, 2}[r.Intn(4)], EmptyOrd: true})
+							} else {
+								f := c07RandField(r)
+								if r.Chance(0.15) {
+									f = c07F{Key: r.Pick(keys[:8]), EmptyOrd: true} // two empty orders
+								}
+								fs = append(fs, f)
+							}
+						}
+						c07SProj(o, r, fs, []string{sep}, "empty-order")
+						count("as-sort-order")
+					}
+				}
+			}
+		}
+		// fixed lists holding the empty word
+		lists := [][]string{{""}, {"", "a"}, {"a", ""}, {"a", "", "b"}, {"", ""}, {"", "AND"}, {"x y", ""}, {"", "", ""}}
+		for _, l := range lists {
+			for _, k := range []string{"a", ".name", "/size", ".fullname", "pkg", "", ".config", ".unit"} {
+				fs := []c07F{{Key: k, QK: r.Intn(3), Fixed: l}}
+				switch r.Intn(3) {
+				case 0:
+					fs = append([]c07F{c07RandField(r)}, fs...)
+				case 1:
+					fs = append(fs, c07RandField(r))
+				}
+				c07SProj(o, r, fs, []string{r.Pick(seps)}, "empty-fixed-member")
+				count("as-fixed-list-member")
+			}
+		}
+		// the empty key in a projection, alone and among others (badF has it once; here with orders)
+		for _, f := range []c07F{{Key: "", QK: 1}, {Key: "", QK: 2, Order: "alpha"}, {Key: "", QK: 1, EmptyOrd: true}, {Key: "", QK: 1, Fixed: []string{""}}} {
+			for total := 1; total <= 2; total++ {
+				for pos := 0; pos < total; pos++ {
+					var fs []c07F
+					for j := 0; j < total; j++ {
+						if j == pos {
+							fs = append(fs, f)
+						} else {
+							fs = append(fs, c07RandField(r))
+						}
+					}
+					c07SProj(o, r, fs, []string{r.Pick(seps)}, "empty-key")
+					count("as-projection-key")
+				}
+			}
+		}
+		// filters
+		lit := func(ss ...string) []c07V {
+			var l []c07V
+			for _, x := range ss {
+				l = append(l, c07V{S: x})
+			}
+			return l
+		}
+		var terms []*c07N
+		for _, k := range []string{"a", ".name", ".fullname", "/k", ".unit", "pkg", "c d", ".config", ""} {
+			terms = append(terms,
+				&c07N{Key: k, QK: r.Intn(3), Vals: lit("")},
+				&c07N{Op: 4, Key: k, QK: r.Intn(3), Vals: lit("", "a")},
+				&c07N{Op: 4, Key: k, QK: r.Intn(3), Vals: lit("ns/op", "")},
+				&c07N{Op: 4, Key: k, QK: r.Intn(3), Vals: lit("")},
+				&c07N{Op: 4, Key: k, QK: r.Intn(3), Vals: []c07V{{S: ""}, {S: "", Re: true}, {S: ""}}})
+		}
+		for _, v := range []string{"v", "x y", "AND"} {
+			terms = append(terms, &c07N{Key: "", QK: 1 + r.Intn(2), Vals: lit(v)})
+		}
+		ts := c07Templates()
+		for _, t := range terms {
+			fam, cls := "empty-value", "as-filter-value"
+			switch {
+			case t.Key == "":
+				fam, cls = "empty-key", "as-filter-key"
+			case t.Key == ".unit":
+				fam, cls = "empty-unit", "as-unit"
+			}
+			c07SFilter(o, r, t, fam)
+			count(cls)
+			for rep2 := 0; rep2 < 2; rep2++ {
+				ti := r.Intn(len(ts))
+				slot := r.Intn(c07TemplateSlots[ti])
+				var sl []*c07N
+				for i := 0; i < c07TemplateSlots[ti]; i++ {
+					if i == slot {
+						sl = append(sl, t)
+					} else {
+						sl = append(sl, c07GoodTerm(r))
+					}
+				}
+				c07SFilter(o, r, ts[ti](sl), fam)
+				count(cls)
+			}
+		}
+	}
+	// quoting cases with the empty string in every place
+	for _, k := range []string{"", "k", ".name", ".unit", "/k", ".fullname", ".config"} {
+		for _, v := range []string{"", "v"} {
+			c07Quote(o, k, v)
+			c07QList(o, k, "", v)
+			c07QList(o, k, v, "")
+		}
+	}
 }
 
 func genC07(o *hx.Out, r *hx.Rng, tier string, replay string) error {
-	o.Rule = "(d) quoted AND/OR/and/ANDx... as key, value, in value lists, as projection key and in fixed-order lists; (e) bare words over ASCII, letters whose UTF-8 contains 0x85/0xA0, U+0085/U+00A0/U+2003, raw 0x85/0xA0/0xff and the special characters, as key, value, projection key and fixed-list member; " + "(a) the table of unicode.IsSpace over all runes; (b) quoting: every string up to a length bound over the alphabet {\" \\ space ( ) : @ , - * / a 0xff é} as key (with a random value) and as value (with a random key), quoted canonically and by strconv.Quote, parsed as filter key:value and as projection, then matched / projected on a result holding the string; (f) structured expressions: the tree is generated first and printed in the documented syntax (bare or double-quoted words, juxtaposition/AND, OR, -, *, key:(v OR v), parentheses), with the offsets of the keys: quoted keys at every position of AND sequences (bare, parenthesised, negated, as OR operand); every semantic rejection of filters (.config with a literal, a regexp, a value list of 1-3 values, an OR of 2-3 .config terms, quoted; the empty key) at every slot of 8 templates and in random trees; projections as field lists printed with every separator (blank, tab, comma) incl. an unquoted /key after white space only, with orders and fixed lists, and every semantic rejection (.unit, empty key, unknown order, .config with a list) at every position; (c) expressions: grammar-generated valid filters and projections, token soup from a piece list (escapes, regexps, operators, Unicode spaces, semantic corner keys) with byte noise. non-trivial = parses as filter or projection (expressions), non-empty string (quoting)"
+	o.Rule = "(d) quoted AND/OR/and/ANDx... as key, value, in value lists, as projection key and in fixed-order lists; (e) bare words over ASCII, letters whose UTF-8 contains 0x85/0xA0, U+0085/U+00A0/U+2003, raw 0x85/0xA0/0xff and the special characters, as key, value, projection key and fixed-list member; " + "(a) the table of unicode.IsSpace over all runes; (b) quoting: every string up to a length bound over the alphabet {\" \\ space ( ) : @ , - * / a 0xff é} as key (with a random value) and as value (with a random key), quoted canonically and by strconv.Quote, parsed as filter key:value and as projection, then matched / projected on a result holding the string; (f) structured expressions: the tree is generated first and printed in the documented syntax (bare or double-quoted words, juxtaposition/AND, OR, -, *, key:(v OR v), parentheses), with the offsets of the keys: quoted keys at every position of AND sequences (bare, parenthesised, negated, as OR operand); every semantic rejection of filters (.config with a literal, a regexp, a value list of 1-3 values, an OR of 2-3 .config terms, quoted; the empty key) at every slot of 8 templates and in random trees; projections as field lists printed with every separator (blank, tab, comma) incl. an unquoted /key after white space only, with orders and fixed lists, and every semantic rejection (.unit, empty key, unknown order, .config with a list) at every position; (c) expressions: grammar-generated valid filters and projections, token soup from a piece list (escapes, regexps, operators, Unicode spaces, semantic corner keys) with byte noise; (g) the quoted EMPTY word \"\" in every syntactic position: as sort order key@\"\" (unknown order) for every kind of key at every position of 1-3 fields with every separator, as projection key, as member of fixed lists, as filter key, value, value-list member and unit (.unit:\"\"), directed and in a second token soup rich in \"\". non-trivial = parses as filter or projection (expressions), non-empty string (quoting)"
 	// (a) IsSpace table
 	var sp []hx.Sx
 	for c := rune(0); c <= unicode.MaxRune; c++ {
@@ -1012,7 +1149,25 @@ func genC07(o *hx.Out, r *hx.Rng, tier string, replay string) error {
 	for _, p := range c07Pieces2 {
 		c07Expr(o, p, "piece")
 	}
+	g2 := r.Split()
 	c07Structured(o, g, tier)
+	// a second soup, rich in the quoted empty word
+	empties := []string{`""`, `""`, `@""`, `@""`, `:""`, `""`+":", `(""`, `"")`, `@ ""`, `,""`}
+	for i := 0; i < nexpr/5; i++ {
+		n := g2.Range(2, 6)
+		var b strings.Builder
+		for j := 0; j < n; j++ {
+			switch {
+			case g2.Chance(0.4):
+				b.WriteString(empties[g2.Intn(len(empties))])
+			case g2.Chance(0.5):
+				b.WriteString(g2.Pick([]string{"a", "b", ".name", "/size", ",", " ", "@alpha", ".unit", ".config", "k:v", "(", ")", " OR ", "-", "*"}))
+			default:
+				b.WriteString(c07Pieces[g2.Intn(len(c07Pieces))])
+			}
+		}
+		c07Expr(o, b.String(), "soup-empty-word")
+	}
 	return nil
 }
 
@@ -1020,5 +1175,7 @@ func genC07(o *hx.Out, r *hx.Rng, tier string, replay string) error {
 var c07Pieces2 = []string{
 	".config:(a OR b)", "goos:linux -(.config:(\"x y\" OR z))", ".config:a OR .config:b", "\".config\":(a OR b OR c)", "k:v (.config:(/a/ OR b))",
 	".config:(a)", "\"\":(a OR b)", "a:b \"c d\":e", "(a:b AND \"c\":d)", "a:b AND \"c d\":e \"f\":g", "-(a:b \"c\":d)",
+	"a@\"\"", ".name,/size@\"\",b", "a@ \"\"", "a @\"\" b", "\"\"@\"\"", "a@\"\",b@alpha", "a@alpha,b@\"\"", ".config@\"\"", ".unit@\"\"", ".fullname@\"\" /k",
+	"k@(\"\")", "k@(\"\" a)", "k@(a \"\")", "k:\"\"", ".unit:\"\"", ".unit:(\"\" OR ns/op)", "\"\":\"\"", "k:(\"\")", "-k:\"\"", "k:\"\" j:\"\"", "\"\"\"\"", "a@\"\"\"\"", "a@\"\"@\"\"", "@\"\"",
 	".name /size", "pkg /gomaxprocs@num", ".name\t/size", "pkg /k@(a b) /j", "\"a b\" /size", ".name /size,.unit", "pkg /k@bogus", "goos .config@(a b)",
 }
